@@ -415,7 +415,7 @@ def blueprint_with_isotopics(a, b, known=("U235", "U238", "O16")):
                nuclideFlags=ymap(NuclideFlags, []))
 
 
-@lemma(overrides=COMP, stubs=WST, gen={"a": (0.0, 0.5), "b": (0.0, 0.5), "e": (0.0, 1.0), "useIso": [True, False], "mod": (0, 2)})
+@lemma(overrides=COMP, stubs=WST, gen={"a": (0.0, 0.5), "b": (0.0, 0.5), "e": (0.0, 1.0), "mod": (0, 2)})
 def material_gets_isotopics_first_then_the_modifications(a: float, b: float, e: float, useIso: bool, mod: int):
     """ComponentBlueprint._constructMaterial (+ CustomIsotopics.apply, CustomIsotopic.apply, expandElementals): the material is
     made with its defaults, then takes the named custom isotopics, then the material modifications - so a modification has
@@ -606,7 +606,7 @@ class BlockDesignProbe:
         return new(BlockProbe, loaded=0, b10=None, design=self)
 
 
-@lemma(overrides=BLK, gen={"k": (0, 2), "skip": (0, 2), "m0": (1, 9), "m1": (1, 9), "m2": (1, 9), "hot": [True, False]})
+@lemma(overrides=BLK, gen={"k": (0, 2), "skip": (0, 2), "m0": (1, 9), "m1": (1, 9), "m2": (1, 9)})
 def block_k_gets_the_kth_entry_of_every_list(k: int, skip: int, h0: float, h1: float, h2: float, m0: int, m1: int, m2: int,
                                              e0: float, e1: float, e2: float, t1: float, hot: bool):
     """AssemblyBlueprint._createBlock, assembly of 3 blocks, block k = 0..2: the block design is asked for a block with the
@@ -705,3 +705,181 @@ def assembly_stacks_the_blocks_in_the_specified_order(nb: int, rad: int, bu: int
     assert len(zb) == nb + 1 and all(eq(zb[i], i) for i in range(nb + 1)), "one axial cell per block"
     assert asm.p.RadMesh == (rad if rad else 1) and asm.p.AziMesh == 1
     assert asm.p.buGroup == bu, "blueprint-assigned parameter"
+
+
+# ------------------------------------------------------------------------------------------------ grid blueprint
+GridBlueprint = repo("armi.reactor.blueprints.gridBlueprint:GridBlueprint")
+Triplet = repo("armi.reactor.blueprints.gridBlueprint:Triplet")
+gridBpMod = repo("armi.reactor.blueprints.gridBlueprint")
+asciimaps = repo("armi.utils.asciimaps")
+HexGrid = repo("armi.reactor.grids.hexagonal:HexGrid")
+CartesianGrid = repo("armi.reactor.grids.cartesian:CartesianGrid")
+ThetaRZGrid = repo("armi.reactor.grids.thetarz:ThetaRZGrid")
+MultiIndexLocation = repo("armi.reactor.grids.locations:MultiIndexLocation")
+
+THIRD_MAP = """-     SH   SH   SH
+-  SH   OC   OC   SH
+ SH   OC   IC   OC   SH
+   OC   IC   IC   OC   SH
+     IC   IC   IC   OC   SH
+       IC   IC   MC   OC   SH
+         IC   IC   OC   SH
+"""
+# the 19-cell hexagon (rings 1-3), label of cell (i, j) = hexLabel(i, j), drawn flats-up and corners-up
+FULL_FLATS_MAP = """-   A6
+  A9  A0
+A2  B3  A4
+  B6  B7
+A9  CC  A1
+  B3  B4
+A6  B7  A8
+  A0  A1
+    A4
+"""
+FULL_TIPS_MAP = """-   -   A6  A0  A4
+  -   A9  B3  B7  A1
+    A2  B6  CC  B4  A8
+      A9  B3  B7  A1
+        A6  A0  A4
+"""
+
+
+def hexDist(i, j):
+    return max(abs(i), abs(j), abs(i + j))
+
+
+def hexLabel(i, j):
+    return "CC" if (i, j) == (0, 0) else ("B", "A")[hexDist(i, j) - 1] + str((7 * i + 3 * j) % 10)
+
+
+HEX19 = {(i, j): hexLabel(i, j) for i in range(-2, 3) for j in range(-2, 3) if hexDist(i, j) <= 2}
+
+
+def hexGridDesign(contents, symmetry="third periodic", geom="hex", latticeMap=None, pitch=None):
+    g = GridBlueprint("core", geom, latticeMap, symmetry, contents, None)
+    g.latticeDimensions = None if pitch is None else Triplet(pitch, 0.0, 0.0)
+    return g
+
+
+@lemma(overrides=BLK, gen={"which": (0, 2)})
+def lattice_map_and_explicit_list_give_the_same_contents(which: int):
+    """GridBlueprint._readGridContents / _readGridContentsLattice (+ asciimaps reader, geometry.SymmetryType.fromStr,
+    asciiMapFromGeomAndDomain) for a hex third-core, a hex full flats-up and a hex full corners-up text map: the indexed
+    contents are the map's cells without the placeholders; the same contents given as an explicit list are taken as they
+    are (also when a map is given as well) - 'text maps and explicit lists alike'.  Text is concrete."""
+    which = choose(which, 0, 2)
+    text = (THIRD_MAP, FULL_FLATS_MAP, FULL_TIPS_MAP)[which]
+    geom, sym = (("hex", "third periodic"), ("hex", "full"), ("hex_corners_up", "full"))[which]
+    cls = (asciimaps.AsciiMapHexThirdFlatsUp, asciimaps.AsciiMapHexFullFlatsUp, asciimaps.AsciiMapHexFullTipsUp)[which]
+    if which == 0:
+        m = cls()
+        m.readAscii(text)
+        expect = {k: v for k, v in m.items() if v != "-"}  # third-core map of the user manual: what the map reader gives, minus placeholders
+    else:
+        expect = dict(HEX19)  # independent of the reader: the labels are a function of the index
+    g = hexGridDesign(None, sym, geom, text)
+    g._readGridContents()
+    assert g.gridContents == expect and g.readFromLatticeMap, "every named location, no placeholder"
+    assert expect[0, 0] == ("IC", "CC", "CC")[which] and len(expect) == (31, 19, 19)[which]
+    g2 = hexGridDesign(dict(expect), sym, geom, None)
+    g2._readGridContents()
+    assert g2.gridContents == expect and not g2.readFromLatticeMap
+    g3 = hexGridDesign({(0, 0): "XX"}, sym, geom, text)
+    g3._readGridContents()
+    assert g3.gridContents == {(0, 0): "XX"}, "explicit contents are not overwritten by the map"
+    g4 = hexGridDesign(None, sym, geom, None)
+    g4._readGridContents()
+    assert g4.gridContents == {}, "neither: empty contents, not None"
+
+
+@lemma(overrides=BLK, gen={"nx": (1, 4), "ny": (1, 4)})
+def cartesian_full_core_map_is_centred(nx: int, ny: int):
+    """_readGridContentsLattice, Cartesian full-core text map of nx x ny cells (1..4 each, enumerated): the cell in text column c
+    (from the left) and text row r (from the BOTTOM) gets the index (c - nx // 2, r - ny // 2): the map is centred on (0, 0);
+    computed here directly from the text.  _getGridSize returns (nx, ny)."""
+    nx, ny = choose(nx, 1, 4), choose(ny, 1, 4)
+    rows = [["%s%d" % ("ABCD"[r], c) for c in range(nx)] for r in range(ny)]
+    text = "\n".join(" ".join(rows[r]) for r in reversed(range(ny))) + "\n"
+    g = GridBlueprint("core", "cartesian", text, "full", None, None)
+    g._readGridContents()
+    expect = {(c - nx // 2, r - ny // 2): rows[r][c] for r in range(ny) for c in range(nx)}
+    assert g.gridContents == expect
+    assert gridBpMod._getGridSize(g.gridContents.keys()) == (nx, ny)
+    if nx % 2 == 1 and ny % 2 == 1:
+        assert g.gridContents[0, 0] == rows[ny // 2][nx // 2], "odd sizes: the middle cell is (0, 0)"
+
+
+def rot120(c):
+    """hex indices rotated by 120 degrees counter-clockwise"""
+    return (-(c[0] + c[1]), c[0])
+
+
+@lemma(overrides=BLK, gen={"i": (0, 3), "j": (0, 3), "p": (0.5, 30.0)})
+def third_core_contents_expand_to_full_core_each_image_once(i: int, j: int, p: float):
+    """GridBlueprint.expandToFull (+ construct, _constructSpatialGrid, HexGrid.fromPitch, getSymmetricEquivalents): third-core
+    contents = centre, (1, 0) and one more cell (i, j) of the first third (0 <= i, j <= 3, enumerated): afterwards the contents
+    are exactly the three rotation images of every cell (the centre once), each with the label of its original, the symmetry
+    is 'full'; the dict given as input is not changed.  A full-core design is left alone."""
+    assume(p > 0)
+    i, j = choose(i, 0, 3), choose(j, 0, 3)
+    c = (i, j)
+    given = {(0, 0): "C", (1, 0): "B", c: "A"}
+    g = hexGridDesign(given, "third periodic", "hex", None, p)
+    g.expandToFull()
+    expect = {(0, 0): ("A" if c == (0, 0) else "C")}
+    for cell, lab in (((1, 0), "B"), (c, "A")):
+        if cell != (0, 0):
+            expect[cell] = expect[rot120(cell)] = expect[rot120(rot120(cell))] = lab
+    assert g.gridContents == expect, "each image once, with the original's label"
+    assert len(expect) == (4 if c in ((0, 0), (1, 0)) else 7)
+    assert g.symmetry == "full" and len(given) == (2 if c in ((0, 0), (1, 0)) else 3)
+    g.expandToFull()
+    assert g.gridContents == expect and g.symmetry == "full", "full core: nothing to do"
+
+
+@lemma(overrides=BLK, gen={"i": (-2, 2), "j": (-2, 2)})
+def contents_outside_the_domain_are_dropped_or_refused(i: int, j: int, same_: bool):
+    """gridBlueprint._filterOutsideDomain (+ HexGrid.locatorInDomain / isInFirstThird / getSymmetricEquivalents), third-core design with
+    the centre, the first ring's two in-domain cells and ONE more cell (i, j) in -2..2 (enumerated): a cell outside the first
+    third is removed when it carries the label of its in-domain image, refused (ValueError) when it carries another; cells
+    inside the domain stay."""
+    i, j = choose(i, -2, 2), choose(j, -2, 2)
+    c = (i, j)
+    base = {(0, 0): "C", (1, 0): "R", (0, 1): "R", (2, 0): "S", (1, 1): "S", (0, 2): "S", (2, -1): "S"}
+    assume(c not in base and max(abs(i), abs(j), abs(i + j)) <= 2)
+    orbit = [c, rot120(c), rot120(rot120(c))]
+    image = [x for x in orbit if x in base][0]
+    contents = dict(base)
+    contents[c] = base[image] if same_ else "X"
+    g = hexGridDesign(contents, "third periodic", "hex", None, None)
+    try:
+        gridBpMod._filterOutsideDomain(g)
+        ok = True
+    except ValueError:
+        ok = False
+    assert ok == same_, "an outside cell that contradicts its image is refused"
+    if ok:
+        assert g.gridContents == base, "the outside cell is gone, the domain is untouched"
+
+
+@lemma(overrides=BLK, gen={"i": (0, 2), "j": (0, 2), "ids": (0, 3), "p": (0.5, 30.0)})
+def locators_are_the_cells_that_carry_the_lattice_id(i: int, j: int, ids: int, p: float):
+    """GridBlueprint.getLocators / getMultiLocator (+ HexGrid.__getitem__): pin lattice with cells '1' '2' '1' and one more cell
+    (i, j) labelled '2': the locators returned for the lattice IDs are exactly the cells carrying one of them (in the order of
+    the contents), on the grid given - so the multiplicity is their number; integer IDs are read as their text; no IDs, no
+    locators."""
+    assume(p > 0)
+    i, j, ids = choose(i, 0, 2), choose(j, 0, 2), choose(ids, 0, 3)
+    contents = {(0, 0): "1", (1, 0): "2", (0, 1): "1"}
+    contents[i, j] = "2"
+    g = hexGridDesign(contents, "full", "hex", None, p)
+    sg = g.construct()
+    latticeIDs = (["1"], [2], ["1", "2"], None)[ids]
+    want = ({"1"}, {"2"}, {"1", "2"}, set())[ids]
+    locs = g.getLocators(sg, latticeIDs)
+    cells = [k for k, v in contents.items() if v in want]
+    assert [(l.i, l.j, l.k) for l in locs] == [(a, b, 0) for a, b in cells]
+    assert all(same(l.grid, sg) for l in locs)
+    ml = g.getMultiLocator(sg, latticeIDs)
+    assert isinstance(ml, MultiIndexLocation) and len(ml) == len(cells), "multiplicity = number of lattice positions"
+    assert [(l.i, l.j) for l in ml] == cells
